@@ -75,7 +75,7 @@ ARCHS = [0, 1, 2, 3, 4]
 
 
 def _harness(ctx):
-    return ctx.harness('c13_pcm', ['c13_pcm.c'], variant='san')
+    return ctx.harness('c13_pcm', ['c13_pcm.c'], variant='san', extra=['-Wl,--wrap=run_analysis'])
 
 
 def ties(ctx):
